@@ -40,6 +40,8 @@ pub struct PChain {
     pub base: u64,
     pub total: u64,
     pub sleep_us: u64,
+    /// extra duration of the very first transition of a run (an expensive first evaluation)
+    pub first_step_us: u64,
     pub order: Arc<Mutex<Vec<usize>>>,
 }
 fn pstate(steps: u64, id: usize, dim: usize) -> Vec<f64> {
@@ -50,6 +52,9 @@ impl MarkovChain<f64> for PChain {
         self.steps += 1;
         if self.sleep_us > 0 {
             std::thread::sleep(std::time::Duration::from_micros(self.sleep_us));
+        }
+        if self.first_step_us > 0 && self.steps == self.base + 1 {
+            std::thread::sleep(std::time::Duration::from_micros(self.first_step_us));
         }
         self.state = pstate(self.steps, self.id, self.state.len());
         if self.steps == self.base + self.total {
@@ -133,7 +138,7 @@ fn counting_case(ctx: &Ctx, rep: &mut Report, case: u64, g: &mut Sm64) {
     let n_collect = *g.choose(&[4usize, 5, 16, 64]);
     let n_discard = *g.choose(&[0usize, 1, 7]);
     let total = (n_collect + n_discard) as u64;
-    let profile = *g.choose(&["uniform", "one straggler", "slow first", "slow last", "random", "instant"]);
+    let profile = if case % 12 == 5 { "first transition takes 1.1 s" } else { *g.choose(&["uniform", "one straggler", "slow first", "slow last", "random", "instant"]) };
     let long = profile == "one straggler" && case % 3 == 0; // > 2 s so that once-per-second reports flow
     let straggler = g.below(n_chains);
     let order = Arc::new(Mutex::new(vec![]));
@@ -148,7 +153,8 @@ fn counting_case(ctx: &Ctx, rep: &mut Report, case: u64, g: &mut Sm64) {
                 "random" => g.below(1500) as u64,
                 _ => 0,
             };
-            PChain { state: pstate(0, id, dim), id, steps: 0, base: 0, total, sleep_us, order: order.clone() }
+            let first_step_us = if profile == "first transition takes 1.1 s" && id == straggler { 1_100_000 } else { 0 };
+            PChain { state: pstate(0, id, dim), id, steps: 0, base: 0, total, sleep_us, first_step_us, order: order.clone() }
         })
         .collect();
     let cfg = json!({"n_chains": n_chains, "dim": dim, "n_collect": n_collect, "n_discard": n_discard, "profile": profile, "long_straggler": long});
@@ -510,7 +516,7 @@ fn receiver_case(ctx: &Ctx, rep: &mut Report, case: u64, g: &mut Sm64) {
         }
     } else {
         let order = Arc::new(Mutex::new(vec![]));
-        let mk = |sleep_us: u64| PChain { state: pstate(0, 3, 2), id: 3, steps: 0, base: 0, total, sleep_us, order: order.clone() };
+        let mk = |sleep_us: u64| PChain { state: pstate(0, 3, 2), id: 3, steps: 0, base: 0, total, sleep_us, first_step_us: 0, order: order.clone() };
         let r = guard(|| {
             let mut a = mk(0);
             let mut b = mk(if slow { 2_400_000 / total } else { 50 });
